@@ -318,8 +318,11 @@ func oracleCancel(mr *muxRun, rs *reqState, cnt *[core.NumCounters]int) *Violati
 		return nil
 	}
 	// the context is done every time it is observed after the abort
+	if rs.ctxCancelAt < 0 || rs.ioBrokenAt < 0 {
+		return nil // the run ended between the two halves of the disconnect
+	}
 	for _, o := range l.Obs {
-		if o.Step > rs.abortedAt && !o.Done {
+		if o.Step > rs.ctxCancelAt && !o.Done {
 			return fail("context-live-after-abort", "the handler's context was still live when observed at step %d", o.Step)
 		}
 	}
@@ -328,7 +331,7 @@ func oracleCancel(mr *muxRun, rs *reqState, cnt *[core.NumCounters]int) *Violati
 	}
 	// the call that was blocked at the abort is released with an error
 	for _, c := range l.Calls {
-		if !(c.Start <= rs.abortedAt && c.End > rs.abortedAt) {
+		if !(c.Start <= rs.ioBrokenAt && c.End > rs.ioBrokenAt) {
 			continue
 		}
 		if c.Kind == 'R' && strings.Contains(info, "handler-in-recv") && strings.Contains(info, "read-parked") && rs.q.inPendingAt == 0 {
